@@ -15,13 +15,13 @@ From Coq Require Import ZArith Reals Lra List Floats.
 From OW Require Import Base.Arith Base.RInst Base.FInst Base.Mealy KernelProofs.Budget.
 From OW Require Import Kernels.C12Common Kernels.LumpedConstituent Kernels.Decay Kernels.InstreamFineSediment
   Kernels.InstreamCoarseSediment Kernels.InstreamParticulateNutrient Kernels.SedimentTrapping
-  Kernels.TrapAll Kernels.DissolvedDecay Kernels.InstreamDissolvedNutrient.
+  Kernels.TrapAll Kernels.DissolvedDecay Kernels.InstreamDissolvedNutrient Kernels.C12Written.
 From OW Require KernelProofs.LumpedConstituent KernelProofs.Decay KernelProofs.InstreamFineSediment
   KernelProofs.InstreamCoarseSediment KernelProofs.InstreamParticulateNutrient KernelProofs.SedimentTrapping
-  KernelProofs.TrapAll KernelProofs.DissolvedDecay KernelProofs.InstreamDissolvedNutrient KernelProofs.C12Float.
+  KernelProofs.TrapAll KernelProofs.DissolvedDecay KernelProofs.InstreamDissolvedNutrient KernelProofs.C12Float KernelProofs.C12Written.
 Import KernelProofs.LumpedConstituent KernelProofs.Decay KernelProofs.InstreamFineSediment
   KernelProofs.InstreamCoarseSediment KernelProofs.InstreamParticulateNutrient KernelProofs.SedimentTrapping
-  KernelProofs.TrapAll KernelProofs.DissolvedDecay KernelProofs.InstreamDissolvedNutrient KernelProofs.C12Float.
+  KernelProofs.TrapAll KernelProofs.DissolvedDecay KernelProofs.InstreamDissolvedNutrient KernelProofs.C12Float KernelProofs.C12Written.
 Import ListNotations.
 Local Open Scope R_scope.
 
@@ -424,6 +424,76 @@ Theorem C12_dissolved_nutrient_nodecay_budget : forall (psl dt s : R) (up lat vo
   outflows (lumped_outflow dt) rows (snd (run (@lumped_step R RArith p dt) s rows)).
 Proof. exact dn_nodecay_budget. Qed.
 Print Assumptions C12_dissolved_nutrient_nodecay_budget.
+
+(** * 10b. Write footprint (Kernels/C12Written.v): which output elements the Go code assigns in every
+    execution.  Wherever the footprint is 0 ("not always written": the code relies on the caller's
+    zero-initialised output array there) the kernel's value is exactly that 0.0; everywhere else the
+    check requires a run into an output array holding OLD data to be bit-identical to a run into a
+    fresh one.  [respects mask outs]: same shape, footprint 0 -> value 0. *)
+Theorem C12_lumped_footprint : forall (w p dt s : R) (a b c d : list R) outs st mask st',
+  @lumped_constituent_routing_kernel R RArith [w; p; dt] [s] [a; b; c; d] = Some (outs, st) ->
+  @lumped_constituent_routing_written R RArith [w; p; dt] [s] [a; b; c; d] = Some (mask, st') ->
+  respects mask outs.
+Proof. exact lumped_footprint. Qed.
+
+(** in particular the lumped transport writes BOTH outputs on EVERY step, flushed or not *)
+Theorem C12_lumped_writes_every_element : forall (w p dt s : R) (a b c d : list R),
+  @lumped_constituent_routing_written R RArith [w; p; dt] [s] [a; b; c; d] =
+  Some ([ones (lumped_rows a (Some b) c d); ones (lumped_rows a (Some b) c d)], []).
+Proof. exact (fun w p dt s a b c d => eq_refl). Qed.
+
+Theorem C12_decay_footprint : forall (w h dt s : R) (a b c d e : list R) outs st mask st',
+  @constituent_decay_kernel R RArith [w; h; dt] [s] [a; b; c; d; e] = Some (outs, st) ->
+  @constituent_decay_written R RArith [w; h; dt] [s] [a; b; c; d; e] = Some (mask, st') ->
+  respects mask outs.
+Proof. exact decay_footprint. Qed.
+
+Theorem C12_fine_footprint :
+  forall (bff vf fpa lw ll ls bh pbh sbd mn vs vr dt c m : R) (a b l v q : list R) outs st mask st',
+  @instream_fine_sediment_kernel R RArith [bff; vf; fpa; lw; ll; ls; bh; pbh; sbd; mn; vs; vr; dt] [c; m] [a; b; l; v; q] = Some (outs, st) ->
+  @instream_fine_sediment_written R RArith [bff; vf; fpa; lw; ll; ls; bh; pbh; sbd; mn; vs; vr; dt] [c; m] [a; b; l; v; q] = Some (mask, st') ->
+  respects mask outs.
+Proof. exact fine_footprint. Qed.
+
+Theorem C12_coarse_footprint : forall (dt c m : R) (a b d : list R) outs st mask st',
+  @instream_coarse_sediment_kernel R RArith [dt] [c; m] [a; b; d] = Some (outs, st) ->
+  @instream_coarse_sediment_written R RArith [dt] [c; m] [a; b; d] = Some (mask, st') ->
+  respects mask outs.
+Proof. exact coarse_footprint. Qed.
+
+Theorem C12_particulate_footprint : forall (pnc spf dt i c : R) (a b c0 d e f g h : list R) outs st mask st',
+  @instream_particulate_nutrient_kernel R RArith [pnc; spf; dt] [i; c] [a; b; c0; d; e; f; g; h] = Some (outs, st) ->
+  @instream_particulate_nutrient_written R RArith [pnc; spf; dt] [i; c] [a; b; c0; d; e; f; g; h] = Some (mask, st') ->
+  respects mask outs.
+Proof. exact particulate_footprint. Qed.
+
+Theorem C12_trapping_footprint : forall (dt cap len sub mult ldf ldp s : R) (a b c d : list R) outs st mask st',
+  @storage_particulate_trapping_kernel R RArith [dt; cap; len; sub; mult; ldf; ldp] [s] [a; b; c; d] = Some (outs, st) ->
+  @storage_particulate_trapping_written R RArith [dt; cap; len; sub; mult; ldf; ldp] [s] [a; b; c; d] = Some (mask, st') ->
+  respects mask outs.
+Proof. exact trapping_footprint. Qed.
+
+Theorem C12_trapall_footprint : forall (m0 : R) (xs b c d : list R) outs st mask st',
+  @storage_trap_all_kernel R RArith [] [m0] [xs; b; c; d] = Some (outs, st) ->
+  @storage_trap_all_written R RArith [] [m0] [xs; b; c; d] = Some (mask, st') ->
+  respects mask outs.
+Proof. exact trapall_footprint. Qed.
+
+Theorem C12_dissolved_nodecay_footprint : forall (dt flag ari bff mfrt s : R) (a b c d : list R) outs st mask st',
+  flag < 1 / 2 ->
+  @storage_dissolved_decay_kernel R RArith [dt; flag; ari; bff; mfrt] [s] [a; b; c; d] = Some (outs, st) ->
+  @storage_dissolved_decay_written R RArith [dt; flag; ari; bff; mfrt] [s] [a; b; c; d] = Some (mask, st') ->
+  respects mask outs.
+Proof. exact dissolved_nodecay_footprint. Qed.
+
+Theorem C12_dissolved_nutrient_nodecay_footprint :
+  forall (flag psl lh lw ll uv dt s : R) (up lat vol q fpf : list R) outs st mask st',
+  flag < 1 / 2 ->
+  @instream_dissolved_nutrient_decay_kernel R RArith [flag; psl; lh; lw; ll; uv; dt] [s] [up; lat; vol; q; fpf] = Some (outs, st) ->
+  @instream_dissolved_nutrient_decay_written R RArith [flag; psl; lh; lw; ll; uv; dt] [s] [up; lat; vol; q; fpf] = Some (mask, st') ->
+  respects mask outs.
+Proof. exact dissolved_nutrient_nodecay_footprint. Qed.
+Print Assumptions C12_particulate_footprint.
 
 (** * 11. Observations outside the statement of C12 (recorded, not counted as violations) *)
 (** the particulate-nutrient BED store (not the in-stream store) can be driven negative by a
